@@ -833,6 +833,34 @@ def main():
             if x.get("kind") == "BinaryOperator" and x.get("opcode") == "=" and strip(kids(x)[0]).get("kind") == "DeclRefExpr" \
                     and strip(kids(x)[0]).get("referencedDecl", {}).get("name") == "N3":
                 n3_values.append(show_expr(kids(x)[1]))
+    # particle.c: who changes the particle number, and who forgets the IAS15 per-slot arrays when IAS15 is the integrator
+    gbodies.load("particle.c")
+    n_writers, reset_callers = [], []
+    for fname, fb in sorted(gbodies.items()):
+        if gbodies.owner.get(fname) != "particle.c":
+            continue
+        for x in walk(fb):
+            k_ = x.get("kind")
+            c_ = None
+            if k_ in ("BinaryOperator", "CompoundAssignOperator") and (k_ == "CompoundAssignOperator" or x.get("opcode") == "="):
+                c_ = classify_store(kids(x)[0])
+            elif k_ == "UnaryOperator" and x.get("opcode") in ("++", "--"):
+                c_ = classify_store(kids(x)[0])
+            if c_ == ("field", "N") and fname not in n_writers:
+                n_writers.append(fname)
+            if k_ == "IfStmt":
+                cc = kids(x)
+                try:
+                    ctext = show_expr(cc[0])
+                except Fail:
+                    ctext = ""
+                if ctext == "r->integrator == REB_INTEGRATOR_IAS15" and any(y.get("kind") == "CallExpr" and callee(y) == "reb_integrator_ias15_reset" for y in walk(cc[1])):
+                    if fname not in reset_callers:
+                        reset_callers.append(fname)
+    reset_stores = []
+    for x in walk(gbodies["reb_integrator_ias15_reset"]):
+        if x.get("kind") == "BinaryOperator" and x.get("opcode") == "=" and classify_store(kids(x)[0]) == ("field", "ri_ias15.N_allocated"):
+            reset_stores.append(show_expr(kids(x)[1]))
     out = {"serializer_effects": sorted(ser_eff), "serializer_stores": comp, "keyboard_keys": keyboard_keys, "double_close_sites": double_close, "prologue": pro, "heads": heads, "steps_body": steps_body, "body": lbody, "sync_helpers": sync_helpers_rebound, "epilogue": epi, "handlers": handlers, "server_startup_writes": startup_writes}
     os.makedirs(os.path.dirname(OUTJ), exist_ok=True)
     json.dump(out, open(OUTJ, "w"), indent=1)
@@ -875,6 +903,11 @@ def main():
            "Definition serializer_unconditional_stores : nat := %d." % len(top_stores),
            "(* integrator_ias15.c: (function, condition, value) of every conditional store to ri_ias15.N_allocated, and every value assigned to N3 *)",
            "Definition ias15_alloc_stores : list (string * string * string) := [%s]." % "; ".join("(%s, %s, %s)" % tuple(qs(t) for t in c) for c in alloc),
+           "(* particle.c: functions that store to r->N; functions that call reb_integrator_ias15_reset under `r->integrator == REB_INTEGRATOR_IAS15`;",
+           "   values reb_integrator_ias15_reset assigns to ri_ias15.N_allocated *)",
+           "Definition particle_number_writers : list string := [%s]." % "; ".join(qs(x) for x in n_writers),
+           "Definition ias15_reset_on_particle_change : list string := [%s]." % "; ".join(qs(x) for x in reset_callers),
+           "Definition ias15_reset_N_allocated_values : list string := [%s]." % "; ".join(qs(x) for x in reset_stores),
            "Definition ias15_N3_values : list string := [%s]." % "; ".join(qs(v) for v in sorted(set(n3_values))),
            "(* key codes with a case label in the /keyboard/ handler *)",
            "Definition keyboard_keys : list nat := [%s]." % "; ".join(str(k) for k in keyboard_keys),
